@@ -904,6 +904,8 @@ func runC07(r *Run) {
 		conform(r, "R07.15", "proc/comp", "LRUCache", m, "comp_cache", nil)
 	}
 	ruleBusConformance(r, "R07.15")
+	r.floor("R07.18", 4)
+	rulePendingKey(r, "R07.18")
 	// R07.16: the jump-resolution notification redirects unconditionally (livelock on a jalr whose target changes otherwise)
 	r.floor("R07.16", 8)
 	ruleJumpResolutionRedirects(r, "R07.16")
@@ -1402,5 +1404,75 @@ func ruleUnitErrorsInspected(r *Run, rule string) {
 			}
 		}
 		visit(v.run.Body.List)
+	}
+}
+
+// rulePendingKey (R07.18): the data-cache probe registers a pending line fetch that the
+// caller later completes by fetching and inserting the line of the FIRST address of
+// the access (pushLine… removes the pending entry whose start equals that address).
+// The entry must therefore be registered under the first address of the probed list,
+// not under the first MISSING byte: for an access whose leading bytes are resident
+// the two differ, the entry is never removed and every later load in its range
+// waits for ever.
+func rulePendingKey(r *Run, rule string) {
+	w := r.W
+	for _, v := range variants(w) {
+		if v.pkg == nil || !v.pipelined() {
+			continue
+		}
+		info := v.info
+		for _, f := range v.pkg.Syntax {
+			for _, d := range f.Decls {
+				fd, ok := d.(*ast.FuncDecl)
+				if !ok || fd.Body == nil || fd.Type.Params == nil {
+					continue
+				}
+				// the []int32 parameter
+				var list types.Object
+				for _, fl := range fd.Type.Params.List {
+					if sl, ok := info.TypeOf(fl.Type).Underlying().(*types.Slice); ok {
+						if b, ok := sl.Elem().Underlying().(*types.Basic); ok && b.Kind() == types.Int32 && len(fl.Names) == 1 {
+							list = info.Defs[fl.Names[0]]
+						}
+					}
+				}
+				if list == nil {
+					continue
+				}
+				n := 0
+				ast.Inspect(fd.Body, func(m ast.Node) bool {
+					call, ok := m.(*ast.CallExpr)
+					if !ok || len(call.Args) != 2 {
+						return true
+					}
+					if id, ok := call.Fun.(*ast.Ident); !ok || id.Name != "append" {
+						return true
+					}
+					cl, ok := ast.Unparen(call.Args[1]).(*ast.CompositeLit)
+					if !ok || len(cl.Elts) != 2 {
+						return true
+					}
+					if at, ok := info.TypeOf(cl).Underlying().(*types.Array); !ok || at.Len() != 2 {
+						return true
+					}
+					// the appended-to slice is a field of the receiver
+					if sel, ok := ast.Unparen(call.Args[0]).(*ast.SelectorExpr); !ok || info.Selections[sel] == nil {
+						return true
+					}
+					n++
+					first := ast.Unparen(cl.Elts[0])
+					good := false
+					if ix, ok := first.(*ast.IndexExpr); ok {
+						if id, ok := ast.Unparen(ix.X).(*ast.Ident); ok && info.Uses[id] == list {
+							if c, ok := constInt64(info.Types[ix.Index]); ok && c == 0 {
+								good = true
+							}
+						}
+					}
+					r.check(good, rule, fmt.Sprintf("%s.%s:pending-start#%d", v.rel, declName(fd), n), call.Pos(), "the pending fetch is registered under the first address of the access — the address its line is later inserted (and the entry removed) under — not under the first missing byte (registered start: %s)", types.ExprString(first))
+					return true
+				})
+			}
+		}
 	}
 }
